@@ -13,7 +13,12 @@ pub struct VariableUse {
 
 impl VariableUse {
     pub fn new(meta: &Meta, name: &VariableName, access: &[AccessType]) -> VariableUse {
-        VariableUse { meta: meta.clone(), name: name.clone(), access: access.to_owned() }
+        // Only keep the location. Cloning the metadata would also clone the cached
+        // variable uses of the node, which in turn hold the metadata of an earlier
+        // caching run, and so on: every re-run of `cache_variable_use` would nest
+        // the previous result one level deeper.
+        let meta = Meta::new(&meta.location, &meta.file_id);
+        VariableUse { meta, name: name.clone(), access: access.to_owned() }
     }
 
     pub fn meta(&self) -> &Meta {
